@@ -24,7 +24,11 @@ use std::time::{Duration, Instant};
 #[derive(Clone, Copy, Debug, PartialEq, Eq, Hash, PartialOrd, Ord)]
 pub enum Phase { Created, OfferMade, RemoteOfferSet, Checking, IceConnected, DtlsHandshaking, Connected, ChannelsOpen, MediaFlowing, Renegotiating }
 #[derive(Clone, Copy, Debug, PartialEq, Eq, Hash, PartialOrd, Ord)]
-pub enum Event { Close, CloseTwice, Drop, PeerCloseNotify, PeerClose, PeerAbort, PeerShutdown, PeerShutdownAck, IceStop, PeerVanish, BlockedSenderClose, BlockedSenderVanish, BlockedSenderAbort, BlockedSenderShutdown, BlockedSenderShutdownAck, BlockedSenderHeartbeat, BlockedSenderCloseNotify, CloseChannelTwice, CloseChannelThenClose, IceFail, PeerVanishIceFail, BadFingerprint }
+pub enum Event { Close, CloseTwice, Drop, PeerCloseNotify, PeerClose, PeerAbort, PeerShutdown, PeerShutdownAck, IceStop, PeerVanish, BlockedSenderClose, BlockedSenderVanish, BlockedSenderAbort, BlockedSenderShutdown, BlockedSenderShutdownAck, BlockedSenderHeartbeat, BlockedSenderCloseNotify, CloseChannelTwice, CloseChannelThenClose, IceFail, PeerVanishIceFail, BadFingerprint,
+    /// a lower-layer end, settle, then the application's close() (audit r3-M6: nothing was ever called after a lower-layer end)
+    IceFailThenClose, PeerAbortThenClose, PeerCloseNotifyThenClose,
+    /// silent peer: Disconnected, grace expiry (the recoverable "cycling transport" state), then ICE gives up (r3-M3)
+    PeerVanishThenIceFail }
 
 const PHASES: &[(Phase, &str)] = &[(Phase::Created, "created"), (Phase::OfferMade, "offerMade"), (Phase::RemoteOfferSet, "remoteOfferSet"),
     (Phase::Checking, "checking"), (Phase::IceConnected, "iceConnected"), (Phase::DtlsHandshaking, "dtlsHandshaking"),
@@ -35,7 +39,9 @@ const EVENTS: &[(Event, &str)] = &[(Event::Close, "close"), (Event::CloseTwice, 
     (Event::PeerVanish, "peerVanish"), (Event::BlockedSenderClose, "blockedSenderClose"),
     (Event::BlockedSenderVanish, "blockedSenderVanish"), (Event::BlockedSenderAbort, "blockedSenderAbort"), (Event::BlockedSenderShutdown, "blockedSenderShutdown"),
     (Event::BlockedSenderShutdownAck, "blockedSenderShutdownAck"), (Event::BlockedSenderHeartbeat, "blockedSenderHeartbeat"), (Event::BlockedSenderCloseNotify, "blockedSenderCloseNotify"),
-    (Event::IceFail, "iceFail"), (Event::PeerVanishIceFail, "peerVanishIceFail"), (Event::BadFingerprint, "badFingerprint"), (Event::CloseChannelTwice, "closeChannelTwice"), (Event::CloseChannelThenClose, "closeChannelThenClose")];
+    (Event::IceFail, "iceFail"), (Event::PeerVanishIceFail, "peerVanishIceFail"),
+    (Event::IceFailThenClose, "iceFailThenClose"), (Event::PeerAbortThenClose, "peerAbortThenClose"), (Event::PeerCloseNotifyThenClose, "peerCloseNotifyThenClose"),
+    (Event::PeerVanishThenIceFail, "peerVanishThenIceFail"), (Event::BadFingerprint, "badFingerprint"), (Event::CloseChannelTwice, "closeChannelTwice"), (Event::CloseChannelThenClose, "closeChannelThenClose")];
 fn phase_name(p: Phase) -> &'static str { PHASES.iter().find(|x| x.0 == p).unwrap().1 }
 fn event_name(e: Event) -> &'static str { EVENTS.iter().find(|x| x.0 == e).unwrap().1 }
 
@@ -44,7 +50,9 @@ pub struct Scen { pub mode: Mode, pub phase: Phase, pub events: Vec<Event>, pub 
 /// `variant`: 0 = full ICE, one media section; 1 = ICE-TCP; 2 = UDP mux; 3 = two non-BUNDLE sections (LegacySip);
 /// 4 = (audio-only) a data channel created after the connection is up: registered, but the connection was
 /// negotiated without an application section and never gets an SCTP association
-const VARIANTS: [&str; 5] = ["", "-tcp", "-udpmux", "-2sec", "-latedc"];
+/// 5 = three channels on the connected pair, the middle one dropped by the application before the event
+/// (a dead entry in the channel list in front of a live one), the other two watched
+const VARIANTS: [&str; 6] = ["", "-tcp", "-udpmux", "-2sec", "-latedc", "-3ch"];
 impl Scen {
     pub fn text(&self) -> String {
         format!("{}{}{}:{}:{}", match self.mode { Mode::WebRtc => "webrtc", Mode::Srtp => "srtp", Mode::Rtp => "rtp" }, if self.audio_only { "-audio" } else { "" }, VARIANTS[self.variant as usize],
@@ -73,6 +81,7 @@ impl Scen {
     pub fn valid(&self) -> bool {
         let connected = matches!(self.phase, Phase::Connected | Phase::ChannelsOpen | Phase::MediaFlowing | Phase::Renegotiating);
         if (self.mode != Mode::WebRtc || self.audio_only) && matches!(self.phase, Phase::ChannelsOpen) { return false; }
+        if self.variant == 5 && !(self.mode == Mode::WebRtc && !self.audio_only && self.phase == Phase::ChannelsOpen && self.events.len() == 1) { return false; }
         if self.variant == 4 && !(self.mode == Mode::WebRtc && self.audio_only && self.phase == Phase::Connected && self.events.len() == 1) { return false; }
         if self.mode != Mode::WebRtc && matches!(self.phase, Phase::IceConnected | Phase::DtlsHandshaking) { return false; }
         for e in &self.events {
@@ -83,7 +92,9 @@ impl Scen {
                 // ICE Failed: forced on the subject's ICE transport (every mode), or produced by its own consent
                 // keepalive when the peer is silent for ice_connection_timeout (WebRTC mode only). Only once
                 // the connection is up: while checks are still running they would overwrite a forced state.
-                Event::IceFail => { if !connected || self.events.len() > 1 { return false; } }
+                Event::IceFail | Event::IceFailThenClose => { if !connected || self.events.len() > 1 { return false; } }
+                Event::PeerAbortThenClose | Event::PeerCloseNotifyThenClose => { if self.mode != Mode::WebRtc || self.phase != Phase::ChannelsOpen || self.events.len() > 1 { return false; } }
+                Event::PeerVanishThenIceFail => { if !connected || self.events.len() > 1 || self.mode != Mode::WebRtc { return false; } }
                 Event::PeerVanishIceFail => { if !connected || self.events.len() > 1 || self.mode != Mode::WebRtc { return false; } }
                 // the answer carries a fingerprint that does not match the peer's certificate: the handshake fails
                 Event::BadFingerprint => { if self.phase != Phase::Checking || self.events.len() > 1 || self.mode != Mode::WebRtc || self.variant != 0 { return false; } }
@@ -157,7 +168,7 @@ fn watch_channel(dc: &Arc<DataChannel>) -> ChanWatch {
 pub struct Outcome {
     pub pre: String, pub progress: bool, pub nch: usize, pub has_app: bool,
     pub peer: String, pub sig: String, pub reason: String, pub chan_events: Vec<usize>, pub chan_open_before: Vec<bool>,
-    pub recv_ended: Vec<bool>, pub calls: String, pub parked: usize, pub notes: Vec<String>, pub blocked_send_ms: Option<u128>, pub err: Option<String>,
+    pub recv_ended: Vec<bool>, pub calls: String, pub parked: usize, pub notes: Vec<String>, pub blocked_send_ms: Option<u128>, pub err: Option<String>, pub gather_pending: bool,
 }
 
 async fn timed<F: std::future::Future<Output = bool>>(f: F, limit: Duration) -> char {
@@ -190,6 +201,18 @@ async fn inject(ev: Event, x: &PeerConnection, y: &PeerConnection) -> Result<(),
         }
         Event::IceStop => { x.ice_transport().stop(); }
         Event::IceFail => { x.ice_transport().verif_set_state(IceTransportState::Failed); }
+        Event::IceFailThenClose | Event::PeerAbortThenClose | Event::PeerCloseNotifyThenClose => {
+            let first = match ev { Event::IceFailThenClose => Event::IceFail, Event::PeerAbortThenClose => Event::PeerAbort, _ => Event::PeerCloseNotify };
+            Box::pin(inject(first, x, y)).await?;
+            // let the lower-layer end be reported (terminal state + reason), then the application closes
+            let (mut ps, rs) = (x.subscribe_peer_state(), x.subscribe_disconnect_reason());
+            let _ = tokio::time::timeout(Duration::from_secs(5), async { loop {
+                if matches!(*ps.borrow_and_update(), PeerConnectionState::Disconnected | PeerConnectionState::Failed) && rs.borrow().is_some() { break; }
+                if ps.changed().await.is_err() { break; } } }).await;
+            tokio::time::sleep(Duration::from_millis(200)).await;
+            x.close();
+        }
+        Event::PeerVanishThenIceFail => { y.ice_transport().stop(); }
         Event::PeerVanishIceFail => { y.ice_transport().stop(); }
         Event::BadFingerprint => {}
         Event::PeerCloseNotify => { y.verif_lc_dtls_transport().ok_or("peer has no DTLS transport")?.close(); }
@@ -230,13 +253,15 @@ async fn exec_once(sc: &Scen, x_runtime: Option<tokio::runtime::Handle>) -> (Out
     let blocked_ev = sc.events.iter().copied().find(|e| is_blocked(*e));
     let hb = blocked_ev == Some(Event::BlockedSenderHeartbeat);
     let icefail_ka = sc.events.contains(&Event::PeerVanishIceFail);
-    let vanish = sc.events.contains(&Event::PeerVanish) || sc.events.contains(&Event::PeerClose) || blocked_ev.is_some() || icefail_ka;
+    let vanish_then_fail = sc.events.contains(&Event::PeerVanishThenIceFail);
+    let vanish = sc.events.contains(&Event::PeerVanish) || sc.events.contains(&Event::PeerClose) || blocked_ev.is_some() || icefail_ka || vanish_then_fail;
     let keep = x_runtime.is_some();
     // heartbeat variant: the SCTP layer must notice the dead peer first (500 ms x 3), not ICE
     // keepalive-driven ICE failure: the consent timeout (2 s) comes before the disconnect threshold
     let knobs = Knobs { ice_disconnect_threshold: Some(Duration::from_millis(if hb || icefail_ka { 20_000 } else { 1200 })), ice_disconnect_grace: Some(Duration::from_millis(300)),
-        ice_connection_timeout: Some(Duration::from_secs(if icefail_ka { 2 } else { 30 })), sctp_max_buffered: if blocked_ev.is_some() { Some(16 * 1024) } else { None },
-        sctp_heartbeat: if hb { Some((Duration::from_millis(500), 3, 3)) } else { None },
+        // … or after it (threshold 1.2 s, grace 0.3 s, consent timeout 4 s): Disconnected → grace expiry → Failed
+        ice_connection_timeout: Some(Duration::from_secs(if icefail_ka { 2 } else if vanish_then_fail { 4 } else { 30 })), sctp_max_buffered: if blocked_ev.is_some() { Some(16 * 1024) } else { None },
+        sctp_heartbeat: if hb { Some((Duration::from_millis(500), 3, 3)) } else { None }, q_legacy: None,
         p_runtime: x_runtime.clone() };
     let mut p = Pair::create(cfg, &knobs);
     out.has_app = cfg.mix.has_data();
@@ -278,6 +303,16 @@ async fn exec_once(sc: &Scen, x_runtime: Option<tokio::runtime::Handle>) -> (Out
     let reason_rx = x.subscribe_disconnect_reason();
     let sig_rx = x.subscribe_signaling_state();
     let mut chans: Vec<Arc<DataChannel>> = xs.dc.iter().cloned().collect();
+    if sc.variant == 5 {
+        // [verif, dropped, live]: the application drops the middle channel; the list keeps its dead entry
+        let r: Result<(), String> = async {
+            let d = x.create_data_channel("dropped", None).map_err(|e| e.to_string())?;
+            let l = x.create_data_channel("live", None).map_err(|e| e.to_string())?;
+            wait_open(&d, Duration::from_secs(9)).await?; wait_open(&l, Duration::from_secs(9)).await?;
+            drop(d); chans.push(l); Ok(())
+        }.await;
+        if let Err(e) = r { out.err = Some(format!("setup: extra channels: {e}")); }
+    }
     if sc.variant == 4 {
         match x.create_data_channel("late", None) { Ok(dc) => chans.push(dc), Err(e) => { out.err = Some(format!("setup: late channel: {e}")); } }
     }
@@ -288,6 +323,11 @@ async fn exec_once(sc: &Scen, x_runtime: Option<tokio::runtime::Handle>) -> (Out
         let (x2, e2) = (x.clone(), pcrecv_ended.clone());
         tokio::spawn(async move { while x2.recv().await.is_some() {} e2.store(true, Ordering::SeqCst); });
     }
+    let gather_ended = Arc::new(AtomicBool::new(false));
+    if !sc.events.contains(&Event::Drop) && !keep {
+        let (x2, e2) = (x.clone(), gather_ended.clone());
+        tokio::spawn(async move { x2.wait_for_gathering_complete().await; e2.store(true, Ordering::SeqCst); });
+    } else { gather_ended.store(true, Ordering::SeqCst); }
     let watches: Vec<ChanWatch> = chans.iter().map(watch_channel).collect();
     out.chan_open_before = watches.iter().map(|w| w.was_open).collect();
 
@@ -436,6 +476,11 @@ async fn exec_once(sc: &Scen, x_runtime: Option<tokio::runtime::Handle>) -> (Out
         return (out, None);
     }
     tokio::time::sleep(Duration::from_millis(if vanish { 4000 } else { 1500 })).await;
+    if vanish_then_fail {
+        // the second half of the sequence: ICE gives up (consent timeout 4 s) — up to 9 more (lag-scaled) seconds
+        let mut ps = peer_rx.clone();
+        let _ = tokio::time::timeout(scaled(Duration::from_secs(9)), async { loop { if *ps.borrow_and_update() == PeerConnectionState::Failed { break; } if ps.changed().await.is_err() { break; } } }).await;
+    }
     // confirm before reporting (busy host): if the connection is not terminal yet or a channel reader has not
     // returned yet, keep polling for up to 4 more seconds — a genuine hang is still there afterwards
     for _ in 0..40 {
@@ -452,12 +497,22 @@ async fn exec_once(sc: &Scen, x_runtime: Option<tokio::runtime::Handle>) -> (Out
     let c_send = timed(async { x.send_data(id, b"after").await.is_ok() }, lim).await;
     let c_offer = timed(async { x.create_offer().await.is_ok() }, lim).await;
     let c_wfc = timed(async { x.wait_for_connected().await.is_ok() }, lim).await;
+    // wait_for_gathering_complete: one pending since before the event and one issued now (implementation-side
+    // oracle only: the model has no gathering state)
+    out.gather_pending = !gather_ended.load(Ordering::SeqCst) || timed(async { x.wait_for_gathering_complete().await; true }, lim).await != 'o';
+    // create_data_channel after the event: refused, or a channel whose recv() ends (never one that hangs)
+    let c_cdc = match x.create_data_channel("after-event", None) {
+        Err(_) => 'e',
+        Ok(dc) => { let closed = matches!(*peer_rx.borrow(), PeerConnectionState::Closed);
+            if closed && timed(async { loop { match dc.recv().await { None => break true, Some(_) => {} } } }, lim).await != 'o' { out.notes.push("channel-created-after-close-never-ends".into()); }
+            'o' }
+    };
     // PeerConnection::recv(): the reader pending since before the event has returned AND a new call ends too
     let c_pcrecv = if pcrecv_ended.load(Ordering::SeqCst) { if timed(async { while x.recv().await.is_some() {} true }, lim).await == 'o' { 'o' } else { 'p' } } else { 'p' };
     let c_recv: String = if watches.is_empty() { "-".into() } else { watches.iter().map(|w| if w.ended.load(Ordering::SeqCst) { 'o' } else { 'p' }).collect() };
     // is `inner.sctp_transport` still held after the event? (close_with_reason must `take()` it)
     let held = x.verif_lc_sctp_transport().is_some() as u8;
-    out.calls = format!("{c_send}{c_offer}{c_wfc}{c_pcrecv}/{c_recv}/h{held}/b{}", out.parked);
+    out.calls = format!("{c_send}{c_offer}{c_wfc}{c_pcrecv}{c_cdc}/{c_recv}/h{held}/b{}", out.parked);
     if keep { return (out, Some(p)); }
     p.off.pc.close(); p.ans.pc.close();
     (out, None)
@@ -494,7 +549,13 @@ fn oracles(sc: &Scen, o: &Outcome) -> Vec<(String, String)> {
     let terminal = matches!(o.peer.as_str(), "disconnected" | "failed" | "closed") && o.reason != "-";
     if !terminal && sc.events != [Event::CloseChannelTwice] { f.push((format!("term:{cls}:{}-{}", o.peer, if o.reason == "-" { "noreason" } else { o.reason.as_str() }), format!("peer={} reason={} sig={}", o.peer, o.reason, o.sig))); }
     let _ = only_shutdown;
-    let app_closed = sc.events.iter().any(|e| matches!(e, Event::Close | Event::CloseTwice | Event::BlockedSenderClose));
+    let app_closed = sc.events.iter().any(|e| matches!(e, Event::Close | Event::CloseTwice | Event::BlockedSenderClose | Event::CloseChannelThenClose
+        | Event::IceFailThenClose | Event::PeerAbortThenClose | Event::PeerCloseNotifyThenClose));
+    // the recoverable "cycling transport" state must end when ICE gives up (consent timeout 4 s, observed >= 13 s)
+    if sc.events == [Event::PeerVanishThenIceFail] && o.peer == "disconnected" { f.push((format!("term:{cls}:still-disconnected-after-ice-gave-up"), format!("peer={} reason={} (ICE consent timeout 4 s elapsed: the driving loop no longer watches ICE)", o.peer, o.reason))); }
+    if app_closed && o.peer != "closed" { f.push((format!("term:{cls}:not-closed-after-close:{}", o.peer), format!("peer={} reason={} sig={}", o.peer, o.reason, o.sig))); }
+    if app_closed && o.calls != "-" && o.gather_pending { f.push((format!("hang:{cls}:wait_for_gathering_complete-pending-after-close"), o.calls.clone())); }
+    if o.notes.iter().any(|n| n == "channel-created-after-close-never-ends") { f.push((format!("hang:{cls}:channel-created-after-close-never-ends"), o.calls.clone())); }
     for (i, n) in o.chan_events.iter().enumerate() {
         if *n > 1 { f.push((format!("chan:{cls}:close-delivered-{n}-times"), format!("channel {i}"))); }
         if o.chan_open_before.get(i).copied().unwrap_or(false) && *n == 0 { f.push((format!("chan:{cls}:open-channel-never-saw-close"), format!("channel {i}"))); }
@@ -505,7 +566,8 @@ fn oracles(sc: &Scen, o: &Outcome) -> Vec<(String, String)> {
         for (i, name) in ["send_data", "create_offer", "wait_for_connected"].iter().enumerate() {
             // wait_for_connected keeps waiting across an ICE disconnect by design (the transport may recover;
             // it ends when ICE gives up: the peerVanishIceFail scenario)
-            if *name == "wait_for_connected" && o.peer == "disconnected" && o.reason == "iceDisconnected" { continue; }
+            // … which IS driven by `peerVanishThenIceFail`: there the exemption does not apply
+            if *name == "wait_for_connected" && o.peer == "disconnected" && o.reason == "iceDisconnected" && sc.events != [Event::PeerVanishThenIceFail] { continue; }
             if c.get(i) == Some(&'p') { f.push((format!("hang:{cls}:{name}-pending-after-terminal"), o.calls.clone())); }
         }
         // PeerConnection::recv() is an event stream: it must end once the connection is Closed (in Failed /
@@ -533,12 +595,13 @@ fn scenarios(thorough: bool) -> Vec<Scen> {
         use Event::*; use Phase::*;
         for (ph, evs) in [(Created, vec![Close, Drop]), (OfferMade, vec![Close]), (RemoteOfferSet, vec![Close]), (Checking, vec![Close, IceStop, Drop, BadFingerprint]),
             (IceConnected, vec![Close, Drop]), (DtlsHandshaking, vec![Close, IceStop, Drop]), (Connected, vec![Close, PeerClose]),
-            (ChannelsOpen, vec![Close, CloseTwice, Drop, PeerCloseNotify, PeerClose, PeerAbort, PeerShutdown, PeerShutdownAck, IceStop, PeerVanish, BlockedSenderClose, BlockedSenderVanish, BlockedSenderAbort, BlockedSenderShutdown, BlockedSenderShutdownAck, BlockedSenderHeartbeat, BlockedSenderCloseNotify, CloseChannelTwice, CloseChannelThenClose, IceFail, PeerVanishIceFail]),
+            (ChannelsOpen, vec![Close, CloseTwice, Drop, PeerCloseNotify, PeerClose, PeerAbort, PeerShutdown, PeerShutdownAck, IceStop, PeerVanish, BlockedSenderClose, BlockedSenderVanish, BlockedSenderAbort, BlockedSenderShutdown, BlockedSenderShutdownAck, BlockedSenderHeartbeat, BlockedSenderCloseNotify, CloseChannelTwice, CloseChannelThenClose, IceFail, PeerVanishIceFail,
+                IceFailThenClose, PeerAbortThenClose, PeerCloseNotifyThenClose, PeerVanishThenIceFail]),
             (MediaFlowing, vec![Close, PeerAbort, IceFail]), (Renegotiating, vec![Close, PeerCloseNotify])] {
             for e in evs { v.push(s(Mode::WebRtc, ph, &[e])); }
         }
         for pair in [[Close, PeerCloseNotify], [Close, PeerAbort], [PeerAbort, PeerCloseNotify], [Close, IceStop]] { v.push(s(Mode::WebRtc, ChannelsOpen, &pair)); }
-        for (ph, evs) in [(Created, vec![Close]), (OfferMade, vec![Drop]), (Connected, vec![Close, Drop, IceStop, CloseTwice, PeerVanish, IceFail]), (MediaFlowing, vec![Close]), (Renegotiating, vec![Close])] {
+        for (ph, evs) in [(Created, vec![Close]), (OfferMade, vec![Drop]), (Connected, vec![Close, Drop, IceStop, CloseTwice, PeerVanish, IceFail, IceFailThenClose]), (MediaFlowing, vec![Close]), (Renegotiating, vec![Close])] {
             for e in evs { v.push(s(Mode::Rtp, ph, &[e])); }
         }
         for e in [Close, Drop, IceFail] { v.push(s(Mode::Srtp, Connected, &[e])); }
@@ -547,6 +610,11 @@ fn scenarios(thorough: bool) -> Vec<Scen> {
     // a data channel registered on a connection that has no SCTP association (audit r2-A4)
     for e in [Event::Close, Event::PeerCloseNotify, Event::PeerVanish, Event::IceFail, Event::IceStop] {
         v.push(Scen { mode: Mode::WebRtc, phase: Phase::Connected, events: vec![e], audio_only: true, variant: 4 });
+    }
+    // a dead entry (channel dropped by the application) in front of a live channel (audit r3-M2): the SCTP-initiated
+    // ends rely on the association's cleanup guard alone
+    for e in [Event::PeerAbort, Event::PeerShutdown, Event::Close] {
+        v.push(Scen { mode: Mode::WebRtc, phase: Phase::ChannelsOpen, events: vec![e], audio_only: false, variant: 5 });
     }
     v.retain(|s| s.valid());
     v
@@ -787,6 +855,8 @@ pub fn run(args: &Args) {
         // judged exactly like the application-initiated ends
         l.push(mk(Mode::WebRtc, ChannelsOpen, PeerAbort, false, 0)); l.push(mk(Mode::WebRtc, ChannelsOpen, PeerCloseNotify, false, 0));
         l.push(mk(Mode::WebRtc, ChannelsOpen, IceFail, false, 0));
+        // … and the application's close() AFTER a lower-layer end must release what was left (audit r3-M6)
+        l.push(mk(Mode::WebRtc, ChannelsOpen, IceFailThenClose, false, 0));
         l
     };
     let mut leaks = vec![];
@@ -797,10 +867,10 @@ pub fn run(args: &Args) {
             "socket_fds_handle_held_peer_closed": l.fds_handle_held, "socket_fds_after_drop": l.fds_after_drop, "peer_state": l.peer, "alarmed": app_ended, "err": l.err,
             "confirmed_after_s": l.confirmed_after_s, "scheduling_lag_factor": l.lag, "fds_held_verdict_s": l.fds_held_s, "fds_drop_verdict_s": l.fds_drop_s}));
         run.count("resource_runs");
-        if l.err.is_some() { continue; }
+        if let Some(e) = &l.err { run.fail(&format!("run:leak:{}:setup-or-injection-failed", sig_class(sc)), &format!("leak {}", sc.text()), e); continue; }
         if app_ended {
-            if l.tasks_x_after_event > 0 { run.fail(&format!("leak:{}:tasks-alive-while-handle-held", sig_class(sc)), &format!("leak {}", sc.text()), &format!("{} tasks of the subject still alive, count stable, confirmed {:.1} s after the event (nominal bound 12 s, scheduling-lag factor {:.1})", l.tasks_x_after_event, l.confirmed_after_s, l.lag)); }
-            if l.fds_handle_held > l.fds_after_drop { run.fail(&format!("leak:{}:sockets-released-only-by-drop", sig_class(sc)), &format!("leak {}", sc.text()), &format!("socket fds {} with the handle held, {} after dropping it", l.fds_handle_held, l.fds_after_drop)); }
+            if l.tasks_x_after_event > 0 { run.fail(&format!("leak:{}:tasks-alive-while-handle-held:{}", sig_class(sc), l.tasks_x_after_event), &format!("leak {}", sc.text()), &format!("{} tasks of the subject still alive, count stable, confirmed {:.1} s after the event (nominal bound 12 s, scheduling-lag factor {:.1})", l.tasks_x_after_event, l.confirmed_after_s, l.lag)); }
+            if l.fds_handle_held > l.fds_after_drop { run.fail(&format!("leak:{}:sockets-released-only-by-drop:+{}", sig_class(sc), l.fds_handle_held - l.fds_after_drop), &format!("leak {}", sc.text()), &format!("socket fds {} with the handle held, {} after dropping it", l.fds_handle_held, l.fds_after_drop)); }
             if l.fds_after_drop > l.fds_base { run.fail(&format!("leak:{}:sockets-open-after-drop", sig_class(sc)), &format!("leak {}", sc.text()), &format!("socket fds {} -> {}", l.fds_base, l.fds_after_drop)); }
         }
     }
